@@ -45,6 +45,10 @@ def render(cfg, dev):
                     out.append("crypto map %s interface %s" % (ln["r"][0].split("|", 1)[1], o["name"]))
                 continue
             head = PREFIX[kind] + (" " + o["name"] if o["name"] else "")
+            if kind == "tgm":        # `tunnel-group-map CERTMAP SEQ TG`: the rule's sequence number is the line's m
+                for ln in sorted(o["lines"], key=lambda l: (l["m"], l["t"])):
+                    out.append((head + " " + subst(ln["t"], ln["r"]).replace("#", ln["m"])).strip())
+                continue
             for ln in o["lines"]:
                 if ln["m"] == "":
                     out.append((head + " " + subst(ln["t"], ln["r"])).strip())
@@ -54,6 +58,22 @@ def render(cfg, dev):
                     if ln["m"] == m:
                         out.append(" " + subst(ln["t"], ln["r"]))
     return "\n".join(out) + "\n"
+
+
+def merge_files(case):
+    """(ipv6 text, raw text) of a merge case: settings for entry 1 of the Netspoc crypto map, a raw-only dynamic map"""
+    pa = case["tgt"]["parts"]
+    if pa["merged"]["objs"] == []:
+        pa["merged"]["objs"] = {}
+    lines = ["crypto map crypto-inside 1 set peer 10.9.9.1"]
+    lines += ["crypto map crypto-inside 1 " + x for x in sorted(pa["rawlines"])]
+    if pa["rawdyn"]:
+        lines += ["crypto ipsec ikev1 transform-set Trans1 esp-3des esp-md5-hmac",
+                  "crypto dynamic-map dynR 10 set pfs group21", "crypto dynamic-map dynR 10 set ikev1 transform-set Trans1",
+                  "crypto dynamic-map dynR 20 set pfs group19",
+                  "crypto map crypto-inside 65000 ipsec-isakmp dynamic dynR"]
+    lines.append("crypto map crypto-inside interface inside")
+    return None, "\n".join(lines) + "\n"
 
 
 # ------------------------------------------------------------------ cmdparse
@@ -150,13 +170,14 @@ def parse_script(text):
         if kind == "acl":
             # `line N` only addresses the position; this family compares ACLs as sets of lines
             t = re.sub(r"^line \d+ ", "", t)
+        tm = ""
         if kind == "tgm":
             w = rest.split()
             if w[0] == "default-group":
                 t, r = "default-group $", [key("tg", w[1])]
             else:
-                t, r = "$ %s $" % w[1], [key("cm", w[0]), key("tg", w[2])]
-        evs.append(dict(e, ev="TopNoLine" if no else "TopLine", k=k, kind=kind, name=name, m="", tx=t, r=r))
+                t, r, tm = "$ # $", [key("cm", w[0]), key("tg", w[2])], w[1]
+        evs.append(dict(e, ev="TopNoLine" if no else "TopLine", k=k, kind=kind, name=name, m=tm, tx=t, r=r))
         mode = None
     return evs
 
